@@ -224,7 +224,13 @@ class MessageBatch:
                 record_timestamp = metadata.timestamp
             else:
                 record_timestamp = timestamp
-            offset = base_offset + metadata.offset
+            # An unknown base offset (-1: DUPLICATE_SEQUENCE_NUMBER for a batch
+            # whose metadata the broker no longer retains) stays unknown for
+            # every record of the batch
+            if base_offset < 0:
+                offset = -1
+            else:
+                offset = base_offset + metadata.offset
             future.set_result(
                 _record_metadata_class(
                     topic,
